@@ -1,8 +1,10 @@
-import LsLemmas.LoopWitness
+import LsLemmas.LoopBound
 /-
   C10 (sync-loop part) — no echo uploads: merging snapshots never causes an upload; every upload
   has a local cause. For EVERY schedule (no race-freedom needed: finding D9 makes the loop upload
   less, never more). The transaction-level part of C10 is in `LsProps/C10.lean`.
+  Second half: the bound — once applications have stopped writing, an instance stores at most what
+  it `owed` (≤ 2), a fleet of n at most the sum (≤ 2·n); helper lemmas in `LsLemmas/LoopBound.lean`.
 -/
 namespace Ls.C10
 open Ls Ls.Txn Ls.SyncLoop Ls.Loop
@@ -79,5 +81,247 @@ open Ls.Loop.Witness in
 example : Synced (run cfgS env0 bkt (schedOk.take 4)).st ∧
     (run cfgS env0 bkt (schedOk.take 4)).st.env.lastTxn = 1 := by
   refine ⟨by decide +kernel, by decide +kernel⟩
+
+/-! ## the bound: after applications stop writing, at most the owed uploads follow -/
+
+/-- **`ownStores` counts the instance's new blobs.** `ownStores c g evs` is defined as the number
+    of loop segments of the continuation `evs` (run from `g`) that store (`Stores`, the only kind
+    of segment that touches the bucket). Equivalently: it is the growth of the number of blobs
+    named `c.own` in the bucket, beyond those that others stored under that name (none, when names
+    are not shared); it is the growth of the whole bucket beyond the others' blobs; and it is the
+    growth of the ghost counter `stores`. -/
+theorem C10_ownStores_is_bucket_growth (c : LoopCfg) (g : G) (evs : List Ev) :
+    ownCount c.own (runFrom c g evs).bucket =
+      ownCount c.own g.bucket + ownCount c.own (othersOf evs) + ownStores c g evs ∧
+    (runFrom c g evs).bucket.length = g.bucket.length + (othersOf evs).length + ownStores c g evs ∧
+    (runFrom c g evs).gh.stores = g.gh.stores + ownStores c g evs :=
+  ⟨ownStores_bucket c g evs, ownStores_length c g evs, ownStores_ghost c g evs⟩
+
+/-- **The bound, sharpest form.** What an instance still owes at a yield point (`owed`):
+    one upload if a dump is in flight (the program counter is at the yield point after `SendOnce`'s
+    transaction, the store comes next), plus one if a cause is outstanding (`¬ Calm`: an
+    application transaction was recorded since the latest dump began, or the LMDB was non-empty at
+    start-up and no dump has begun yet); exactly one before the start-up segment has run (`boot`);
+    none once the loop has ended. So `owed ≤ 2`.
+    For every configuration (native or shadow, any options), every reachable state — any start
+    environment, start bucket and history `evs0`, with application transactions, failing stores,
+    races — and every continuation `evs` of any length in which no application transaction is
+    recorded (arbitrary receiver answers, clock readings, store failures, listings, other
+    instances' stores; the model has no restart event): the instance stores at most `owed` blobs,
+    and what it owes at the end is at most the rest. (A store that exhausts its retry budget ends
+    the loop and counts as no store.) -/
+theorem C10_upload_bound (c : LoopCfg) (env : Env) (b : Bucket) (evs0 evs : List Ev)
+    (hna : NoAppFrom c (run c env b evs0) evs) :
+    owed (runFrom c (run c env b evs0) evs) + ownStores c (run c env b evs0) evs ≤
+      owed (run c env b evs0) :=
+  ownStores_le_owed c _ evs (inv0_run c env b evs0) hna
+
+/-- **At most two more uploads, from any reachable state**: once applications have stopped
+    writing, an instance stores at most two more blobs, however long it runs. (Two is attained:
+    see the examples below — a dump in flight AND an application transaction recorded after that
+    dump was taken.) -/
+theorem C10_at_most_two_more_uploads (c : LoopCfg) (env : Env) (b : Bucket) (evs0 evs : List Ev)
+    (hna : NoAppFrom c (run c env b evs0) evs) : ownStores c (run c env b evs0) evs ≤ 2 := by
+  have h1 := C10_upload_bound c env b evs0 evs hna
+  have h2 := owedOf_le_two (run c env b evs0).st.pc (run c env b evs0).gh
+  unfold owed at h1
+  omega
+
+/-- **At most one more upload** unless a dump is in flight whose content is already outdated:
+    if the program counter is not at the yield point after `SendOnce`'s transaction, or no
+    application transaction has been recorded since that dump began (`appDirty = false`), then the
+    instance stores at most one more blob — the one that was already owed (the dump in flight, or
+    the one upload for the application transactions / the start-up since the latest dump). -/
+theorem C10_at_most_one_more_upload (c : LoopCfg) (env : Env) (b : Bucket) (evs0 evs : List Ev)
+    (hna : NoAppFrom c (run c env b evs0) evs)
+    (hone : (∀ who t ts snap, (run c env b evs0).st.pc ≠ .sendAfterTxn who t ts snap) ∨
+      (run c env b evs0).gh.appDirty = false) :
+    ownStores c (run c env b evs0) evs ≤ 1 := by
+  have h1 := C10_upload_bound c env b evs0 evs hna
+  have h0 := (inv0_run c env b evs0).pcinv
+  have hc := cause_le_one (run c env b evs0).gh
+  have : owed (run c env b evs0) ≤ 1 := by
+    unfold owed
+    cases hpc : (run c env b evs0).st.pc with
+    | sendAfterTxn who t ts snap =>
+      rcases hone with h | h
+      · exact absurd hpc (h who t ts snap)
+      · rw [hpc] at h0
+        have : cause (run c env b evs0).gh = 0 := (cause_eq_zero_iff _).mpr ⟨h, h0.2.2.1⟩
+        show 1 + cause _ ≤ 1
+        omega
+    | boot => exact Nat.le_refl _
+    | exited e => exact Nat.zero_le _
+    | _ => exact hc
+  omega
+
+/-- **No upload when nothing is owed**: if no cause is outstanding (`Calm`) and the instance is
+    past its start-up segment and has no dump in flight, then it stores nothing, however long it
+    runs, as long as no application transaction is recorded. (`boot` has to be excluded: a freshly
+    initialised instance is `Calm` but makes its start-up upload if its LMDB is non-empty.
+    `beforeSend` is never `Calm`, `C10_send_needs_cause`.) -/
+theorem C10_no_upload_when_calm (c : LoopCfg) (env : Env) (b : Bucket) (evs0 evs : List Ev)
+    (hna : NoAppFrom c (run c env b evs0) evs) (hcalm : Calm (run c env b evs0).gh)
+    (hboot : (run c env b evs0).st.pc ≠ .boot)
+    (hsend : ∀ who t ts snap, (run c env b evs0).st.pc ≠ .sendAfterTxn who t ts snap) :
+    ownStores c (run c env b evs0) evs = 0 := by
+  have h1 := C10_upload_bound c env b evs0 evs hna
+  have h2 := owedOf_le_cause (run c env b evs0).gh hboot hsend
+  have h3 := (cause_eq_zero_iff _).mpr hcalm
+  unfold owed at h1
+  omega
+
+/-- the same from `C10_calm_synced` and `C10_no_echo`, at the yield points of the load part, with
+    the bucket spelled out: it grows by the others' blobs only -/
+theorem C10_no_upload_when_calm_bucket (c : LoopCfg) (env : Env) (b : Bucket) (evs0 evs : List Ev)
+    (hna : NoAppFrom c (run c env b evs0) evs) (hcalm : Calm (run c env b evs0).gh)
+    (hpc : (run c env b evs0).st.pc = .top ∨ (run c env b evs0).st.pc = .beforeInfo ∨
+      (run c env b evs0).st.pc = .sleep ∨
+      ∃ t lc inst ts n, (run c env b evs0).st.pc = .loadAfterTxn t lc inst ts n) :
+    (runFrom c (run c env b evs0) evs).bucket = (run c env b evs0).bucket ++ othersOf evs ∧
+    ownStores c (run c env b evs0) evs = 0 := by
+  have hb := (C10_no_echo c _ evs (C10_calm_synced c env b evs0 hcalm hpc) hna).2
+  refine ⟨hb, ?_⟩
+  have hl := ownStores_length c (run c env b evs0) evs
+  rw [hb, List.length_append] at hl
+  omega
+
+/-- after the loop has ended nothing is stored -/
+theorem C10_no_upload_after_exit (c : LoopCfg) (env : Env) (b : Bucket) (evs0 evs : List Ev)
+    (hna : NoAppFrom c (run c env b evs0) evs) (e : Exit)
+    (hpc : (run c env b evs0).st.pc = .exited e) : ownStores c (run c env b evs0) evs = 0 := by
+  have h1 := C10_upload_bound c env b evs0 evs hna
+  unfold owed at h1
+  rw [hpc] at h1
+  have : owedOf (.exited e) (run c env b evs0).gh = 0 := rfl
+  omega
+
+/-- **The fleet bound** (assume–guarantee: the single-instance bound holds in EVERY environment,
+    in particular in the one made of the other instances, so it holds for all instances at once).
+    `n` instances with configurations `cs 0 … cs (n-1)` (native and shadow mixed at will), start
+    environments `envs j`, one common start bucket `B0`. A global schedule is a list of events
+    `(k, e)`: instance `k` does `e` (a loop segment, an application transaction, a listing), or
+    `e = .others bs` for writers outside the fleet; whatever an event appends to the bucket, every
+    other instance sees as "others stored it" (`fleetStep`, `localEv`). After ANY global history
+    `evs0`, for every global continuation `evs` in which no application transaction is recorded at
+    any instance:
+    * every instance's part is one of the single-instance schedules (projection);
+    * all instances see one bucket: the common bucket after the history plus what was appended,
+      and that is the outside writers' blobs plus one blob per storing segment (`fleetStores`);
+    * the fleet produces at most `Σ owed ≤ 2·n` snapshots, and what the instances owe at the
+      end is at most the rest — once the debt is paid, no snapshot is produced any more. -/
+theorem C10_fleet_bound (cs : Nat → LoopCfg) (n : Nat) (envs : Nat → Env) (B0 : Bucket)
+    (evs0 evs : List (Nat × Ev))
+    (hk : ∀ ke ∈ evs, ke.1 < n)
+    (hna : FleetNoApp cs (fleetRun cs (fun j => G.init (envs j) B0) evs0) evs) :
+    let F := fleetRun cs (fun j => G.init (envs j) B0) evs0
+    (∀ j, fleetRun cs F evs j = runFrom (cs j) (F j) (localEvs cs F evs j)) ∧
+    (∀ j, j < n → (fleetRun cs F evs j).bucket = (F 0).bucket ++ fleetDelta cs F evs) ∧
+    (fleetDelta cs F evs).length = (fleetExt evs).length + fleetStores cs F evs ∧
+    fleetStores cs F evs + sumTo n (fun j => owed (fleetRun cs F evs j)) ≤ sumTo n (fun j => owed (F j)) ∧
+    sumTo n (fun j => owed (F j)) ≤ 2 * n := by
+  intro F
+  have hreach : ∀ j, F j = run (cs j) (envs j) B0 (localEvs cs (fun j => G.init (envs j) B0) evs0 j) :=
+    fun j => fleetRun_local cs _ evs0 j
+  have hB : ∀ j, j < n → (F j).bucket = (F 0).bucket := by
+    intro j hj
+    have h0 : 0 < n := by omega
+    rw [fleetRun_bucket cs n _ evs0 B0 (fun _ _ => rfl) j hj,
+      fleetRun_bucket cs n _ evs0 B0 (fun _ _ => rfl) 0 h0]
+  refine ⟨fleetRun_local cs F evs, fun j hj => fleetRun_bucket cs n F evs _ hB j hj,
+    fleetDelta_length cs F evs, ?_, sumTo_const_le (fun j _ => owedOf_le_two _ _)⟩
+  exact fleetStores_le cs n F evs hk (fun j _ => by rw [hreach j]; exact inv0_run _ _ _ _) hna
+
+/-- … and when nothing is owed anywhere — every instance `Calm`, past start-up, no dump in
+    flight — the fleet produces no snapshot at all. -/
+theorem C10_fleet_quiet (cs : Nat → LoopCfg) (n : Nat) (envs : Nat → Env) (B0 : Bucket)
+    (evs0 evs : List (Nat × Ev))
+    (hk : ∀ ke ∈ evs, ke.1 < n)
+    (hna : FleetNoApp cs (fleetRun cs (fun j => G.init (envs j) B0) evs0) evs)
+    (hcalm : ∀ j, j < n →
+      Calm (fleetRun cs (fun j => G.init (envs j) B0) evs0 j).gh ∧
+      (fleetRun cs (fun j => G.init (envs j) B0) evs0 j).st.pc ≠ .boot ∧
+      ∀ who t ts snap, (fleetRun cs (fun j => G.init (envs j) B0) evs0 j).st.pc ≠ .sendAfterTxn who t ts snap) :
+    fleetStores cs (fleetRun cs (fun j => G.init (envs j) B0) evs0) evs = 0 := by
+  have h := (C10_fleet_bound cs n envs B0 evs0 evs hk hna).2.2.2.1
+  have h0 : sumTo n (fun j => owed (fleetRun cs (fun j => G.init (envs j) B0) evs0 j)) ≤ 0 * n :=
+    sumTo_const_le (fun j hj => by
+      obtain ⟨a, b, c⟩ := hcalm j hj
+      have := owedOf_le_cause (fleetRun cs (fun j => G.init (envs j) B0) evs0 j).gh b c
+      have := (cause_eq_zero_iff _).mpr a
+      unfold owed; omega)
+  omega
+
+/-! ### the bounds are attained; the hypotheses are satisfiable -/
+
+section Witnesses
+open Ls.Loop.Witness Ls.Loop.BoundWitness
+
+/-- **One upload after an application transaction, and no second one** (shadow and native): after
+    an application transaction at `top` one upload is owed; eleven more segments without
+    application transactions contain exactly one store; forty contain exactly one store. -/
+example :
+    owed (run cfgS env0 [] histOne) = 1 ∧ (run cfgS env0 [] histOne).gh.allApp = [1] ∧
+    NoAppFrom cfgS (run cfgS env0 [] histOne) (gos 40) ∧
+    ownStores cfgS (run cfgS env0 [] histOne) (gos 11) = 1 ∧
+    ownStores cfgS (run cfgS env0 [] histOne) (gos 40) = 1 ∧
+    ((runFrom cfgS (run cfgS env0 [] histOne) (gos 40)).bucket.map (·.inst)) = ["a"] ∧
+    Calm (run cfgS env0 [] (histOne ++ gos 5)).gh ∧ (run cfgS env0 [] (histOne ++ gos 5)).st.pc = .sleep ∧
+    ownStores cfgS (run cfgS env0 [] (histOne ++ gos 5)) (gos 40) = 0 := by
+  refine ⟨by decide +kernel, by decide +kernel, by decide +kernel, by decide +kernel, by decide +kernel,
+    by decide +kernel, by decide +kernel, by decide +kernel, by decide +kernel⟩
+
+example :
+    owed (run cfgN env0 [] histOneN) = 1 ∧ (run cfgN env0 [] histOneN).gh.allApp = [1] ∧
+    NoAppFrom cfgN (run cfgN env0 [] histOneN) (gos 40) ∧
+    ownStores cfgN (run cfgN env0 [] histOneN) (gos 11) = 1 ∧
+    ownStores cfgN (run cfgN env0 [] histOneN) (gos 40) = 1 := by
+  refine ⟨by decide +kernel, by decide +kernel, by decide +kernel, by decide +kernel, by decide +kernel⟩
+
+/-- **The bound 2 is attained** (shadow and native): the loop has taken its dump (yield point after
+    `SendOnce`'s transaction) and a second application transaction is recorded before the dump is
+    stored. Without any further application transaction the instance stores the outdated dump and
+    then one more; and then no third, however long it runs. -/
+example :
+    owed (run cfgS env0 [] histTwo) = 2 ∧
+    NoAppFrom cfgS (run cfgS env0 [] histTwo) (gos 40) ∧
+    ownStores cfgS (run cfgS env0 [] histTwo) (gos 12) = 2 ∧
+    ownStores cfgS (run cfgS env0 [] histTwo) (gos 40) = 2 := by
+  refine ⟨by decide +kernel, by decide +kernel, by decide +kernel, by decide +kernel⟩
+
+example :
+    owed (run cfgN env0 [] histTwoN) = 2 ∧
+    NoAppFrom cfgN (run cfgN env0 [] histTwoN) (gos 40) ∧
+    ownStores cfgN (run cfgN env0 [] histTwoN) (gos 12) = 2 ∧
+    ownStores cfgN (run cfgN env0 [] histTwoN) (gos 40) = 2 := by
+  refine ⟨by decide +kernel, by decide +kernel, by decide +kernel, by decide +kernel⟩
+
+/-- **Start-up** (native): a non-empty LMDB and an empty bucket: exactly the start-up upload; and
+    with an application transaction recorded between the start-up dump and its store: two — the
+    start-up upload and one loop upload. -/
+example :
+    (run cfgN env0 [] histStart).st.pc = .boot ∧ (run cfgN env0 [] histStart).st.env.lastTxn = 1 ∧
+    ownStores cfgN (run cfgN env0 [] histStart) (gos 40) = 1 ∧
+    owed (run cfgN env0 [] histStartTwo) = 2 ∧
+    (run cfgN env0 [] histStartTwo).gh.sendStart = true ∧
+    NoAppFrom cfgN (run cfgN env0 [] histStartTwo) (gos 40) ∧
+    ownStores cfgN (run cfgN env0 [] histStartTwo) (gos 40) = 2 := by
+  refine ⟨by decide +kernel, by decide +kernel, by decide +kernel, by decide +kernel, by decide +kernel,
+    by decide +kernel, by decide +kernel⟩
+
+/-- **A fleet of two** (shadow): "a"'s application wrote once; in the continuation without
+    application transactions "a" uploads once, "b" merges that snapshot — its LMDB changes
+    (`lastTxn = 1`) — twice and uploads nothing: one snapshot in all, as owed. -/
+example :
+    let F := fleetRun cs2 fleet0 fleetHist
+    FleetNoApp cs2 F fleetCont ∧ owed (F 0) = 1 ∧ owed (F 1) = 0 ∧
+    fleetStores cs2 F fleetCont = 1 ∧
+    (fleetRun cs2 F fleetCont 1).st.env.lastTxn = 1 ∧
+    ((fleetRun cs2 F fleetCont 1).bucket.map (·.inst)) = ["a"] ∧
+    owed (fleetRun cs2 F fleetCont 0) = 0 ∧ owed (fleetRun cs2 F fleetCont 1) = 0 := by
+  refine ⟨by decide +kernel, by decide +kernel, by decide +kernel, by decide +kernel, by decide +kernel,
+    by decide +kernel, by decide +kernel, by decide +kernel⟩
+
+end Witnesses
 
 end Ls.C10
